@@ -64,6 +64,8 @@ pub struct Outcome {
     pub sigs: Vec<u64>,
     /// explicit (already minimised) scenario to use for replay instead of the generated one
     pub explicit: Option<Value>,
+    /// hash of the canonical trace (set by the harness before traces of later scenarios are dropped)
+    pub trace_hash: u64,
 }
 impl Outcome {
     pub fn skip(reason: &str) -> Outcome {
@@ -249,6 +251,7 @@ pub fn run_check(prop: &dyn Property, tier: Tier) -> i32 {
                     Some(x) if !out.violations.is_empty() => x,
                     _ => sc,
                 };
+                out.trace_hash = hash_str(&out.trace.join("\n"));
                 if !keep {
                     out.trace.clear();
                 }
@@ -293,12 +296,14 @@ pub fn run_check(prop: &dyn Property, tier: Tier) -> i32 {
     let mut sim_ms = 0u64;
     let mut sub_evals = 0u64;
     let mut advisories: BTreeMap<String, u64> = BTreeMap::new();
+    let mut trace_hashes: HashSet<u64> = HashSet::new();
     for (i, sc, out) in &results {
         if let Some(r) = &out.skipped {
             *skipped.entry(r.clone()).or_insert(0) += 1;
             continue;
         }
         evaluations += 1 + out.extra_evals;
+        trace_hashes.insert(out.trace_hash);
         for s in &out.sigs {
             distinct.insert(*s);
         }
@@ -408,9 +413,10 @@ pub fn run_check(prop: &dyn Property, tier: Tier) -> i32 {
         "samples": samples,
         "scenarios_planned": n,
         "sub_executions": sub_evals,
-        "runs_per_hour": if explore_s > 0.0 { (results.len() as f64 / explore_s * 3600.0) as u64 } else { 0 },
+        "runs_per_hour": if explore_s > 0.0 { (evaluations as f64 / explore_s * 3600.0) as u64 } else { 0 },
+        "distinct_canonical_traces": trace_hashes.len(),
         "seeds": {"verif_seed": seed, "first_index": 0, "last_index": results.last().map(|r| r.0).unwrap_or(0), "scenario_seed": "mix(VERIF_SEED, property, index)"},
-        "sim_time": {"controller_steps": steps, "real_pause_ms": sim_ms},
+        "sim_time": {"controller_steps": steps, "real_pause_ms": sim_ms, "virtual_ms": probes.get("virtual_ms_covered").cloned().unwrap_or(0)},
         "faults_fired": faults,
         "probes": probes,
         "components": prop.components(),
